@@ -52,9 +52,9 @@ Definition vzero (a : cvec) : bool := forallb czero a.
 
 (* complex linear combination  sum_j cs_j * ws_j  (missing coefficients count as 0) *)
 Fixpoint lincomb (cs : list C) (ws : list cvec) : cvec :=
-  match ws with
-  | [] => []
-  | w :: ws' => vadd (cvscale (hd (0, 0) cs) w) (lincomb (tl cs) ws')
+  match cs, ws with
+  | c :: cs', w :: ws' => vadd (cvscale c w) (lincomb cs' ws')
+  | _, _ => []
   end.
 
 (* bilinear (unconjugated) product  sum_k a_k * b_k, and matrix * vector *)
